@@ -8,7 +8,8 @@ on the class structure, validators and DEFAULTS tree regenerated from the source
                                coded value, and the constructor default / None at every other leaf
   * `setattr_unknown_name_rejected(_at)` every name that is neither a property nor another public attribute of the class:
                                AttributeError, world unchanged (for all names, all objects, all sub-objects, all states)
-  * `method_names_not_rejected` witness that the exclusion is necessary (`defaults.copy = 1` is accepted by the code)
+  * `method_names_rejected`    every callable attribute name (methods, dunder methods) is rejected (repo fix 3fc7703);
+                               `private_slots_not_rejected`: witness that the regenerated list `others` is needed
   * `update_unknown_name_rejected` the same through `update(name=v)` on a stable state
   * `rejected_setattr_keeps_world`  a rejected attribute assignment changes nothing, whatever was rejected
   * `rejected_update_applies_earlier_keys`  witness: a rejected `update` is NOT atomic in the code
@@ -167,7 +168,7 @@ theorem inv0_exec : ∀ (ops : List Op) (w : World), Inv0 w → Inv0 (exec table
 For every number and kind of objects and EVERY history `ops` (updates in any notation on any sub-object with any flags,
 attribute assignments, accepted or rejected, resets of the whole or of the styles, style assignments, reads):
 `magpylib.defaults.reset()` then succeeds, the defaults tree is exactly the tree at import time, and no object's own
-style is touched.  (Names shadowing methods — outcome `shadow` — are outside the model, see `method_names_not_rejected`.) -/
+style is touched.  (Assignments to private slots — outcome `shadow` — are outside the model, see `private_slots_not_rejected`.) -/
 theorem reset_restores (cls : List Nat) (ops : List Op) :
     let w := exec tables classes defaults (init cls) ops
     (match (step tables classes defaults w .reset).2 with | .ok => True | _ => False) ∧
@@ -205,12 +206,6 @@ where go : List (Key × Tree) → List (List Key × Option Val)
   | [] => []
   | (k, t) :: r => (leafPaths t).map (fun pv => (k :: pv.1, pv.2)) ++ go r
 
-/-- the validator row of the leaf at a path of the `DefaultSettings` schema -/
-def leafVid : List (Key × Schema) → List Key → Option Nat
-  | _, [] => none
-  | ps, [k] => match lookup k ps with | some (.leaf vid) => some vid | _ => none
-  | ps, k :: k2 :: ks => match lookup k ps with | some (.obj ps' _ _ _ _) => leafVid ps' (k2 :: ks) | _ => none
-
 /-- **"restores every default", leaf by leaf (computed over the regenerated DEFAULTS and classes).**  At every one of the
 (more than 100) leaves of `DEFAULTS` the tree after `reset()` holds exactly what that leaf's own setter stores for the
 hard coded value (e.g. the lower-cased colour string), and the setter accepts it. -/
@@ -228,14 +223,16 @@ theorem initial_defaults_are_DEFAULTS :
 /-! ### invalid names -/
 
 /-- **C20: every name outside the schema is rejected** (attribute assignment on the object itself).  For every world,
-every object `i` (the defaults or an object's style), every name `n` that is not a property of the object's class, does
-not start with an underscore and is not one of the class's other public attributes (`update`, `copy`, `as_dict`, …; the
-regenerated `others`), and every value: AttributeError, and the world is exactly as before. -/
+every object `i` (the defaults or an object's style), EVERY name `n` — with or without underscores — that is not a
+property of the object's class and not in the class's regenerated list `others` of non-property names the code still
+lets through (the private slots `_color`, …, `__doc__`, `__module__`, `__dict__`, the frozen flag; no method, no public
+name), and every value: AttributeError, and the world is exactly as before.  (Before repo fix 3fc7703 every existing
+attribute, methods included, was accepted; the model then had a blanket exception for underscored names.) -/
 theorem setattr_unknown_name_rejected (T : Tables) (Cs : List ClassInfo) (D : Tree) (w : World) (i : Nat) (o : Obj) (c : ClassInfo)
     (n : Str) (val : Tree) (hw : w[i]? = some o) (hc : Cs[o.cls]? = some c)
-    (hn : lookup (.str n) c.schema.props = none) (hu : underscored n = false) (ho : c.schema.others.contains n = false) :
+    (hn : lookup (.str n) c.schema.props = none) (ho : c.schema.others.contains n = false) :
     step T Cs D w (.setattr i [] (.str n) val) = (w, .err .attribute) := by
-  simp only [step, onObj, hw, hc, atPath_nil, setAttr, hn, hu, ho, Bool.or_self, Bool.false_eq_true, if_false]
+  simp only [step, onObj, hw, hc, atPath_nil, setAttr, hn, ho, Bool.false_eq_true, if_false]
   rw [setTree_same w i o hw]
   rfl
 
@@ -244,45 +241,108 @@ theorem setattr_unknown_name_rejected_at (T : Tables) (Cs : List ClassInfo) (D :
     (path : List Key) (ps : List (Key × Schema)) (os : List Str) (sub : Dict)
     (n : Str) (val : Tree) (hw : w[i]? = some o) (hc : Cs[o.cls]? = some c)
     (hs : subObj c.schema.props c.schema.others o.tree path = some (ps, os, sub))
-    (hn : lookup (.str n) ps = none) (hu : underscored n = false) (ho : os.contains n = false) :
+    (hn : lookup (.str n) ps = none) (ho : os.contains n = false) :
     step T Cs D w (.setattr i path (.str n) val) = (w, .err .attribute) := by
   simp only [step, onObj, hw, hc]
   rw [atPath_of_subObj_error _ .attribute path _ _ _ ps os sub hs
-    (by simp only [setAttr, hn, hu, ho, Bool.or_self, Bool.false_eq_true, if_false])]
+    (by simp only [setAttr, hn, ho, Bool.false_eq_true, if_false])]
   simp only []
   rw [setTree_same w i o hw]
   rfl
 
 /-- non-vacuity on the regenerated classes: `magpylib.defaults.display.style.magnet.magnetisation = 1` (a misspelt
-property, three levels down) -/
+property, three levels down) and an unknown underscored name `defaults.display._zzz = 1` -/
 example : (match (step tables classes defaults (init []) (.setattr 0 [dk, .str "style".toList, .str "magnet".toList]
-    (.str "magnetisation".toList) (.leaf (some 8)))).2 with | .err .attribute => true | _ => false) = true := by
+    (.str "magnetisation".toList) (.leaf (some 8)))).2 with | .err .attribute => true | _ => false) = true ∧
+    (match (step tables classes defaults (init []) (.setattr 0 [dk] (.str "_zzz".toList) (.leaf (some 8)))).2 with
+      | .err .attribute => true | _ => false) = true := by
   decide +kernel
 
-/-- **the exclusion of the other public attributes is necessary (witness; defect of the code).**  `hasattr` is true for
-methods, so `MagicProperties.__setattr__` lets `magpylib.defaults.copy = 1` through: the model reports `shadow` where the
-property demands a rejection.  Real code: afterwards `magpylib.defaults.copy()` raises TypeError and `reset()` does not
-repair it. -/
-theorem method_names_not_rejected :
+/-- what the regenerated classes must satisfy for the two corollaries below: no callable attribute name of any property
+class (`methodNames`: `copy`, `update`, `as_dict`, `reset`, `add_trace`, `_freeze`, `__init__`, `__class__`, …) is a
+property or assignable in any class, and every assignable non-property name contains an underscore -/
+def nodeOk (x : List (Key × Schema) × List Str) : Bool :=
+  methodNames.all (fun m => (lookup (.str m) x.1).isNone && !x.2.contains m) && x.2.all (fun n => n.contains '_')
+
+/-- computed over every property class nested in every class of the table (37 classes) -/
+theorem all_nodes_ok :
+    classes.all (fun c => ((c.schema.props, c.schema.others) :: nodesL c.schema.props).all nodeOk) = true ∧
+    methodNames.length ≥ 30 := by
+  decide +kernel
+
+theorem nodeOk_of_subObj (o : Obj) (c : ClassInfo) (hc : classes[o.cls]? = some c) (path : List Key) (ps : List (Key × Schema))
+    (os : List Str) (sub : Dict) (hs : subObj c.schema.props c.schema.others o.tree path = some (ps, os, sub)) :
+    nodeOk (ps, os) = true := by
+  have hmem : c ∈ classes := List.mem_of_getElem? hc
+  have h1 := List.all_eq_true.mp all_nodes_ok.1 c hmem
+  exact List.all_eq_true.mp h1 (ps, os) (subObj_mem_nodes path _ _ _ ps os sub hs)
+
+/-- **C20: every method name is rejected** (true since repo fix 3fc7703; before it `defaults.copy = 1` replaced the
+method on the instance, the former witness `method_names_not_rejected`).  For every reachable or unreachable world over
+the regenerated classes, every object, every sub-object at any depth, every callable attribute name `m` of any property
+class (public methods, private methods, dunder methods) and every value: `X.m = val` raises AttributeError and changes
+nothing. -/
+theorem method_names_rejected (w : World) (i : Nat) (o : Obj) (c : ClassInfo) (path : List Key) (ps : List (Key × Schema))
+    (os : List Str) (sub : Dict) (m : Str) (val : Tree) (hw : w[i]? = some o) (hc : classes[o.cls]? = some c)
+    (hs : subObj c.schema.props c.schema.others o.tree path = some (ps, os, sub)) (hm : m ∈ methodNames) :
+    step tables classes defaults w (.setattr i path (.str m) val) = (w, .err .attribute) := by
+  have hok := nodeOk_of_subObj o c hc path ps os sub hs
+  simp only [nodeOk, Bool.and_eq_true, List.all_eq_true, Bool.not_eq_true', Option.isNone_iff_eq_none] at hok
+  obtain ⟨h1, h2⟩ := hok.1 m hm
+  exact setattr_unknown_name_rejected_at tables classes defaults w i o c path ps os sub m val hw hc hs h1 h2
+
+/-- non-vacuity: `magpylib.defaults.copy = 1`, `defaults.display.style.reset = None` and `obj.style.update(update=1)` are
+rejected with AttributeError on the regenerated classes (the first was accepted before 3fc7703) -/
+example :
     (match (step tables classes defaults (init []) (.setattr 0 [] (.str "copy".toList) (.leaf (some 8)))).2 with
-      | .err .shadow => true | _ => false) = true ∧
-    (match (step tables classes defaults (init []) (.update 0 [] none [(.str "update".toList, .leaf (some 8))] true false)).2 with
+      | .err .attribute => true | _ => false) = true ∧
+    (match (step tables classes defaults (init []) (.setattr 0 [dk, .str "style".toList] (.str "reset".toList) (.leaf none))).2 with
+      | .err .attribute => true | _ => false) = true ∧
+    (match (step tables classes defaults (init [1]) (.update 1 [] none [(.str "update".toList, .leaf (some 8))] true false)).2 with
+      | .err .attribute => true | _ => false) = true ∧
+    "copy".toList ∈ methodNames ∧ "__class__".toList ∈ methodNames := by
+  decide +kernel
+
+/-- the names the code still lets through are not rejected (witness that `others` cannot be dropped): assigning the
+private slot `defaults.display._backend = 1` bypasses the validator; the model reports `shadow` and makes no claim -/
+theorem private_slots_not_rejected :
+    (match (step tables classes defaults (init []) (.setattr 0 [dk] (.str "_backend".toList) (.leaf (some 8)))).2 with
       | .err .shadow => true | _ => false) = true := by
   decide +kernel
 
 /-- **C20: invalid names are rejected through `update` as well.**  `obj.update(n=v)` for a name `n` (no underscore in it,
-so the magic notation leaves it alone) that is neither a property nor another public attribute, on an object in a stable
+so the magic notation leaves it alone) that is neither a property nor in `others`, on an object in a stable
 state (`obj.update()` changes nothing) whose `as_dict()` has no such key: AttributeError and the object is unchanged. -/
 theorem update_unknown_name_rejected (T : Tables) (props : List (Key × Schema)) (others : List Str) (cur : Dict)
     (n : Str) (v : Option Val) (rno : Bool) (hst : Stable T props others cur) (hk : lookup (.str n) cur = none)
-    (hn : lookup (.str n) props = none) (hu : underscored n = false) (ho : others.contains n = false) (hsep : '_' ∉ n) :
+    (hn : lookup (.str n) props = none) (ho : others.contains n = false) (hsep : '_' ∉ n) :
     updateObj T props others cur none [(.str n, .leaf v)] true rno = (cur, .error .attribute) := by
   have hm := magicToDict_single '_' v n [] (by simpa using hsep)
   simp only [joinWith, List.map_cons, List.map_nil, pathTree] at hm
   simp only [updateObj, mergeDict, List.foldl_cons, List.foldl_nil, setKey, hm, Bool.not_true, updateNested, updDict,
     updLoop_single, hk, updVal, Option.isSome_none, isNoneOrMissing, Bool.true_or, if_true, Bool.not_false, Bool.or_true]
   rw [setKey_of_lookup_none hk, setAllS_append, hst]
-  simp only [setAllS_cons, setAttr, hn, hu, ho, Bool.or_self, Bool.false_eq_true, if_false]
+  simp only [setAllS_cons, setAttr, hn, ho, Bool.false_eq_true, if_false]
+
+/-- … and on the regenerated classes the list `others` needs no mention: every assignable non-property name contains an
+underscore, so through `update` EVERY keyword without underscore that is not a property — every public method name
+among them — is rejected, for every class at any depth. -/
+theorem update_rejects_every_non_property_name (o : Obj) (c : ClassInfo) (hc : classes[o.cls]? = some c) (path : List Key)
+    (ps : List (Key × Schema)) (os : List Str) (sub : Dict)
+    (hs : subObj c.schema.props c.schema.others o.tree path = some (ps, os, sub))
+    (n : Str) (v : Option Val) (rno : Bool) (hst : Stable tables ps os sub) (hk : lookup (.str n) sub = none)
+    (hn : lookup (.str n) ps = none) (hsep : '_' ∉ n) :
+    updateObj tables ps os sub none [(.str n, .leaf v)] true rno = (sub, .error .attribute) := by
+  have hok := nodeOk_of_subObj o c hc path ps os sub hs
+  simp only [nodeOk, Bool.and_eq_true, List.all_eq_true] at hok
+  have ho : os.contains n = false := by
+    cases hcn : os.contains n with
+    | false => rfl
+    | true =>
+      exfalso
+      have hmem : n ∈ os := List.contains_iff_mem.mp hcn
+      exact hsep (List.contains_iff_mem.mp (hok.2 n hmem))
+  exact update_unknown_name_rejected tables ps os sub n v rno hst hk hn ho hsep
 
 /-- computed: the state at import time is stable, for the defaults and for a new style object of every class -/
 theorem initial_states_stable :
@@ -296,7 +356,7 @@ theorem initial_states_stable :
 example : updateObj tables props0 others0 resetResult.1 none [(.str "colour".toList, .leaf (some 8))] true false =
     (resetResult.1, .error .attribute) :=
   update_unknown_name_rejected tables props0 others0 resetResult.1 "colour".toList (some 8) false
-    (stable_of_stableB _ _ _ _ initial_states_stable.1) (by decide +kernel) (by decide +kernel) (by decide) (by decide +kernel) (by decide)
+    (stable_of_stableB _ _ _ _ initial_states_stable.1) (by decide +kernel) (by decide +kernel) (by decide +kernel) (by decide)
 
 /-! ### rejected operations and the state -/
 
@@ -350,12 +410,6 @@ theorem rejected_update_applies_earlier_keys :
   decide +kernel
 
 /-! ### reads after writes -/
-
-/-- the attribute assignment `X.k = val` as the in-place operation `step` runs at a path -/
-def assignOp (T : Tables) (k : Key) (val : Tree) : List (Key × Schema) → List Str → Dict → Dict × Except Kind Unit :=
-  fun ps' os' c => match setAttr T ps' os' c k val with
-    | .ok c' => (c', .ok ())
-    | .error e => (c, .error e)
 
 /- FULL: for every history, the value read at a leaf path is what the setter stored for the last ACCEPTED write that
    covers the path (an assignment or an update key at that path, a dict assigned above it, a reset), else the initial
@@ -444,6 +498,203 @@ example :
     let w' := (step tables classes defaults w (.update 1 [] none [(.str "path_line_width".toList, .leaf (some 15))] true false)).1
     (match w'[1]?, w[1]? with | some a, some b => !beqKids a.tree b.tree | _, _ => false) = true ∧
     (match w'[2]?, w[2]? with | some a, some b => beqKids a.tree b.tree | _, _ => false) = true := by
+  decide +kernel
+
+/-! ### history level: what is read from `magpylib.defaults` is the last accepted write, else the default -/
+
+/- FULL: the same for histories that also contain `update` (any notation), assignments of dicts / None to sub-objects and
+   `display.style.reset()` on the defaults, and for the objects' own styles.  Those operations re-build sub-objects from
+   their dictionaries; that this changes no other leaf needs `construct` to be idempotent on every reached state
+   (stability preserved by every operation), which is proved for the states at import time only and observed by the
+   `sstate` stream (375 reached states per quick run).  Proved here: histories in which `magpylib.defaults` itself is
+   changed by assignments to plain properties at any depth (accepted or rejected), `reset()` and reads — with ARBITRARY
+   operations on the objects in between. -/
+
+/-- the operations on `magpylib.defaults` covered (anything goes on the other objects) -/
+def Simple0 : Op → Prop
+  | .setattr i p k _ => i ≠ 0 ∨ (leafVid props0 (p ++ [k])).isSome
+  | .update i _ _ _ _ _ => i ≠ 0
+  | .resetStyle => False
+  | _ => True
+
+def outOk : Out → Bool
+  | .ok => true
+  | _ => false
+
+/-- what a history has done to one leaf: nothing yet / stored `v` / put back to the default -/
+inductive Eff where
+  | keep
+  | set (v : Option Val)
+  | init
+
+/-- the specification, one operation with its outcome at a time (no tree in sight): an ACCEPTED assignment to exactly
+the path `q` stores what the setter makes of the value, a reset puts the default back, everything else — rejected
+assignments, assignments elsewhere, operations on other objects, reads — keeps what was there -/
+def effStep (q : List Key) (vid : Nat) (e : Eff) (x : Op × Bool) : Eff :=
+  match x.1 with
+  | .setattr i p k val =>
+    if i = 0 ∧ p ++ [k] = q ∧ x.2 = true then
+      (match runV tables vid val with | .ok v => .set v | .error _ => e)
+    else e
+  | .reset => .init
+  | _ => e
+
+/-- a history with the outcome (accepted or not) of every operation -/
+def annot : World → List Op → List (Op × Bool)
+  | _, [] => []
+  | w, op :: t => (op, outOk (step tables classes defaults w op).2) :: annot (step tables classes defaults w op).1 t
+
+def Eff.val (q : List Key) (base : Except Kind Tree) : Eff → Except Kind Tree
+  | .keep => base
+  | .set v => .ok (.leaf v)
+  | .init => readPath props0 resetResult.1 q
+
+/-- `magpylib.defaults.<q>` -/
+def read0 (w : World) (q : List Key) : Except Kind Tree :=
+  match w[0]? with
+  | some o => readPath props0 o.tree q
+  | none => .error .other
+
+theorem effStep_val (q : List Key) (vid : Nat) (e : Eff) (x : Op × Bool) (b : Except Kind Tree) :
+    (effStep q vid e x).val q b = (effStep q vid .keep x).val q (e.val q b) := by
+  unfold effStep
+  split
+  · split
+    · split <;> rfl
+    · rfl
+  · rfl
+  · rfl
+
+theorem foldl_val (q : List Key) (vid : Nat) : ∀ (l : List (Op × Bool)) (e : Eff) (b : Except Kind Tree),
+    (l.foldl (effStep q vid) e).val q b = (l.foldl (effStep q vid) .keep).val q (e.val q b) := by
+  intro l
+  induction l with
+  | nil => intro e b; rfl
+  | cons x t ih =>
+    intro e b
+    simp only [List.foldl_cons]
+    rw [ih (effStep q vid e x) b, ih (effStep q vid .keep x) (e.val q b), effStep_val]
+
+theorem step_read_world (w : World) (i : Nat) (p : List Key) : (step tables classes defaults w (.read i p)).1 = w := by
+  simp only [step]
+  split
+  · rfl
+  · split
+    · rfl
+    · split <;> rfl
+
+theorem step_reset_inv0 (w : World) (x : Tree) (hx : w[0]? = some ⟨0, [(dk, x)]⟩) :
+    step tables classes defaults w .reset = (setTree w 0 resetResult.1, .ofExcept resetResult.2) := by
+  show onObj classes w 0 (resetDefaults tables defaults) = _
+  rw [onObj_zero _ w x hx, reset_from_any_state]
+
+theorem read0_of_eq {w w' : World} (h : w'[0]? = w[0]?) (q : List Key) : read0 w' q = read0 w q := by
+  unfold read0; rw [h]
+
+/-- one operation: the read afterwards is the read before, transformed by the operation's specified effect -/
+theorem read0_step (w : World) (h : Inv0 w) (op : Op) (hs : Simple0 op) (q : List Key) (vid : Nat)
+    (hq : leafVid props0 q = some vid) :
+    read0 (step tables classes defaults w op).1 q =
+      (effStep q vid .keep (op, outOk (step tables classes defaults w op).2)).val q (read0 w q) := by
+  obtain ⟨x, hx⟩ := h
+  cases op with
+  | update i path arg kwargs mt rno =>
+    have hi : i ≠ 0 := hs
+    exact read0_of_eq (step_frame tables classes defaults w (.update i path arg kwargs mt rno) 0 (fun e => hi e.symm)) q
+  | setattr i p k val =>
+    by_cases hi : i = 0
+    · subst hi
+      have hvid : ∃ vid', leafVid props0 (p ++ [k]) = some vid' := by
+        rcases hs with h0 | h1
+        · exact absurd rfl h0
+        · exact Option.isSome_iff_exists.mp h1
+      obtain ⟨vid', hvid'⟩ := hvid
+      have hstep : step tables classes defaults w (.setattr 0 p k val) =
+          (setTree w 0 (atPath (assignOp tables k val) props0 others0 [(dk, x)] p).1,
+           .ofExcept (atPath (assignOp tables k val) props0 others0 [(dk, x)] p).2) :=
+        onObj_zero (fun ps os cur => atPath (assignOp tables k val) ps os cur p) w x hx
+      rw [hstep]
+      simp only []
+      have hread : ∀ t, read0 (setTree w 0 t) q = readPath props0 t q := by
+        intro t; unfold read0; rw [setTree_getElem?_self w 0 t _ hx]
+      have hbase : read0 w q = readPath props0 [(dk, x)] q := by unfold read0; rw [hx]
+      rw [hread, hbase]
+      cases hr : (atPath (assignOp tables k val) props0 others0 [(dk, x)] p).2 with
+      | error e =>
+        have hfp : ∀ ps os c e, (assignOp tables k val ps os c).2 = .error e → (assignOp tables k val ps os c).1 = c := by
+          intro ps os c e he
+          unfold assignOp at he ⊢
+          cases hsa : setAttr tables ps os c k val with
+          | ok c' => rw [hsa] at he; cases he
+          | error e' => rfl
+        rw [atPath_error_unchanged _ hfp p _ _ _ e hr]
+        simp [effStep, Out.ofExcept, outOk, Eff.val]
+      | ok u =>
+        obtain ⟨ps', os', c', v', hsub, hk, hv⟩ := assign_accepted_elim tables k val p props0 others0 [(dk, x)] vid' hvid' hr
+        by_cases hpq : p ++ [k] = q
+        · have hvv : vid' = vid := by rw [hpq, hq] at hvid'; injection hvid' with e; exact e.symm
+          subst hvv
+          have hb := (leaf_write_read_back_partial tables k val vid' v' hv p props0 others0 [(dk, x)] ps' os' c' hsub hk).2
+          rw [hpq] at hb
+          rw [hb]
+          simp [effStep, Out.ofExcept, outOk, Eff.val, hpq, hv]
+        · rw [assign_frame tables k val vid' v' hv p props0 others0 [(dk, x)] ps' os' c' q vid hsub hk hq (fun e => hpq e.symm)]
+          simp [effStep, Eff.val, hpq]
+    · rw [read0_of_eq (step_frame tables classes defaults w (.setattr i p k val) 0 (fun e => hi e.symm)) q]
+      simp [effStep, Eff.val, hi]
+  | reset =>
+    rw [step_reset_inv0 w x hx]
+    simp only [effStep, Eff.val]
+    unfold read0
+    rw [setTree_getElem?_self w 0 _ _ hx]
+  | resetStyle => exact absurd hs id
+  | setStyle i val =>
+    by_cases hi : i = 0
+    · subst hi
+      have : (step tables classes defaults w (.setStyle 0 val)).1 = w := by simp [step]
+      rw [this]; rfl
+    · exact read0_of_eq (step_frame tables classes defaults w (.setStyle i val) 0 (fun e => hi e.symm)) q
+  | setStyleObj i j =>
+    rw [style_object_assignment_ignored]; rfl
+  | read i p =>
+    rw [step_read_world]; rfl
+
+theorem reads_refine_from (q : List Key) (vid : Nat) (hq : leafVid props0 q = some vid) : ∀ (ops : List Op) (w : World), Inv0 w →
+    (∀ op ∈ ops, Simple0 op) →
+    read0 (exec tables classes defaults w ops) q = ((annot w ops).foldl (effStep q vid) .keep).val q (read0 w q) := by
+  intro ops
+  induction ops with
+  | nil => intro w _ _; rfl
+  | cons op t ih =>
+    intro w hw hs
+    rw [exec_cons, annot, List.foldl_cons, foldl_val,
+      ih _ (inv0_step w op hw) (fun o ho => hs o (List.mem_cons_of_mem _ ho)),
+      read0_step w hw op (hs op (List.mem_cons_self ..)) q vid hq]
+
+/-- **C20, history level (defaults, leaf assignments / resets / reads; arbitrary operations on the objects).**  After any
+such history, reading a plain property `q` of `magpylib.defaults` (any depth) gives: the value its setter stored for the
+LAST ACCEPTED assignment to `q` since the last `reset()`, else the default — i.e. the state machine refines the map
+`path ↦ value` computed from the operations and their outcomes alone (`effStep`). -/
+theorem defaults_reads_refine_partial (cls : List Nat) (ops : List Op) (hs : ∀ op ∈ ops, Simple0 op) (q : List Key) (vid : Nat)
+    (hq : leafVid props0 q = some vid) :
+    read0 (exec tables classes defaults (init cls) ops) q =
+      ((annot (init cls) ops).foldl (effStep q vid) .keep).val q (readPath props0 resetResult.1 q) := by
+  rw [reads_refine_from q vid hq ops (init cls) (inv0_init cls) hs]
+  unfold read0
+  rw [init_zero]
+
+/-- non-vacuity: accepted write (5), write to another leaf, rejected write ('tail' is no number), an update of an object's
+style and a read in between: the specification says `set 5`; after a further reset it says `init` -/
+example :
+    let q : List Key := [dk, .str "autosizefactor".toList]
+    let ops : List Op := [.setattr 0 [dk] (.str "autosizefactor".toList) (.leaf (some 4)),
+      .setattr 0 [dk, .str "animation".toList] (.str "fps".toList) (.leaf (some 4)),
+      .setattr 0 [dk] (.str "autosizefactor".toList) (.leaf (some 41)),
+      .update 1 [] none [(.str "opacity".toList, .leaf (some 21))] true false, .read 0 q]
+    (leafVid props0 q).isSome = true ∧
+    (match (annot (init [1]) ops).foldl (effStep q ((leafVid props0 q).getD 0)) .keep with | .set (some 4) => true | _ => false) = true ∧
+    (match (annot (init [1]) (ops ++ [.reset])).foldl (effStep q ((leafVid props0 q).getD 0)) .keep with | .init => true | _ => false) = true ∧
+    (match read0 (exec tables classes defaults (init [1]) ops) q with | .ok (.leaf (some 4)) => true | _ => false) = true := by
   decide +kernel
 
 end MagpyVerif.C20c
